@@ -758,9 +758,10 @@ PROPS = {
                        "only if one is handed out; split_to/trim_to keep the invariant (their asserts are preconditions). EntryScanner::convert_label (the "
                        "in-place conversion of one label of a name, both its fast path and its escape-decoding path): what is written never overtakes "
                        "what is still to be read, the length octet written in front of the label says how many octets follow and never more than 63 "
-                       "(a longer label is refused on both paths), and when there is nothing to convert the write position is where it was.",
+                       "(a longer label is refused on both paths), and when there is nothing to convert the write position is where it was; "
+                       "EntryScanner::convert_charstr likewise with the 255-octet limit of a character string.",
         "not_covered": "Layout independence beyond the metamorphic search c07_search_layouts (a relation between two runs on two files; no contract on a single call expresses it), "
-                       "the rest of EntryScanner (scan_entry, scan_name, convert_token, convert_charstr, in-place rewriting with from_utf8_unchecked), record-data "
+                       "the rest of EntryScanner (scan_entry, scan_name, convert_token, in-place rewriting with from_utf8_unchecked), record-data "
                        "scan() functions, $ORIGIN/$TTL/class inheritance, error positions. Symbol::from_slice_index is assumed to "
                        "return an end position inside the buffer (its own totality is not proved).",
         "assumptions": [
